@@ -35,14 +35,19 @@ def cmd_check(a):
     seed = int(os.environ.get("VERIF_SEED", "20260930") or 0)
     ctx = core.Ctx(pid, tier, seed)
     mod = importlib.import_module("props." + pid.lower())
+    broken = None
     try:
         core.build_harness()
         for extra in getattr(mod, "HARNESSES", []):
             core.build_harness(extra)
     except core.BuildError as e:
         core.log(str(e))
-        print("BUILD-ERROR property=%s: /repo does not build with the verif tag; no verdict" % pid)
-        return 2
+        if not core.repo_builds_plain():
+            print("BUILD-ERROR property=%s: /repo does not build; no verdict" % pid)
+            return 2
+        # the repository builds, the harness (the hooks of the verif tag and the module that drives the real code) does not: the
+        # correspondence between model and implementation cannot be established any more
+        broken = {"family": "harness-build", "model": "the harness no longer builds against /repo with -tags verif: " + str(e)[-1500:]}
     make_ok, tail = core.coq_make()
     bad = core.coq_hygiene()
     theorems = core.property_theorems(pid)
@@ -61,15 +66,24 @@ def cmd_check(a):
         else:
             ok, err = False, "coqchk does not accept the compiled development: " + chk[:300]
     theorems = (obligations, discharged if ok else min(discharged, max(obligations - 1, 0)), details, ok, err)
-    try:
-        mod.run(ctx, tier)
-        if (not ok or ctx.corr_breaks) and not ctx.violations and tier == "quick" and hasattr(mod, "search"):
-            ctx.notes.append("proof or correspondence broke: escalated to the thorough search for a failing input")
-            mod.search(ctx)
-    except core.BuildError as e:
-        core.log(str(e))
-        print("HARNESS-ERROR property=%s: %s" % (pid, str(e)[:300]))
-        return 2
+    if broken is not None:
+        ctx.corr_breaks.append(broken)
+    else:
+        try:
+            mod.run(ctx, tier)
+            if (not ok or ctx.corr_breaks) and not ctx.violations and tier == "quick" and hasattr(mod, "search"):
+                ctx.notes.append("proof or correspondence broke: escalated to the thorough search for a failing input")
+                mod.search(ctx)
+        except core.BuildError as e:
+            # the harness process died or answered out of protocol, or coqc rejected a generated case file: the implementation did
+            # something the correspondence has no place for
+            core.log(str(e))
+            ctx.corr_breaks.append({"family": "harness-run", "model": "the run of the real code could not be interpreted: " + str(e)[-1500:]})
+        except Exception:
+            import traceback
+            tb = traceback.format_exc()
+            core.log(tb)
+            ctx.corr_breaks.append({"family": "driver", "model": "the observations of the real code could not be interpreted by the check: " + tb[-1500:]})
     return core.finish(ctx, mod.TITLE, theorems, mod.TECHNIQUE, getattr(mod, "extra_cov", lambda c: None)(ctx),
                        getattr(mod, "ASSUMPTIONS", []))
 
